@@ -95,7 +95,7 @@ def warm():
     prepareUpdate("INSERT DATA { <urn:a> <urn:b> <urn:c> }")
 
 
-UPDATES = ["insert-data", "delete-where", "copy-p-to-q", "delete-insert"]
+UPDATES = ["insert-data", "delete-where", "copy-p-to-q", "delete-insert", "insert-initbinding"]
 
 
 def generate(seed, tier):
@@ -109,6 +109,8 @@ def generate(seed, tier):
         "context_aware": g.chance(0.8),
         "init": [[g.pick(SUBS), g.pick(PREDS), g.pick(OBJS), g.choice([None, 0, 1])] for _ in range(g.randint(0, 6))],
         "extra_params": g.chance(0.3),
+        # the store itself binds the prefix that some queries pass through initNs - to another namespace: initNs is the nearer one
+        "store_binds_exq": g.chance(0.3),
         "faults": [],
     }
     nsteps = g.randint(4, 30 if tier == "quick" else 50)
@@ -339,7 +341,7 @@ def _execute(trace, ctx):
     import warnings
 
     import rdflib.plugins.stores.sparqlconnector as conn
-    from rdflib import ConjunctiveGraph, Graph
+    from rdflib import ConjunctiveGraph, Graph, URIRef
     from rdflib.graph import DATASET_DEFAULT_GRAPH_ID
     from rdflib.plugins.stores.sparqlstore import SPARQLUpdateStore
 
@@ -350,6 +352,9 @@ def _execute(trace, ctx):
     conn.urlopen = ep
     extra = {"params": {"client-tag": "sim"}, "headers": {"X-Sim": "1"}} if cfg.get("extra_params") else {}
     store = SPARQLUpdateStore(QUERY_URL, UPDATE_URL, context_aware=cfg["context_aware"], autocommit=cfg["autocommit"], dirty_reads=cfg["dirty_reads"], method=cfg["method"], returnFormat=cfg["format"], **extra)
+    if cfg.get("store_binds_exq"):
+        store.bind("exq", URIRef("http://elsewhere.example/ns#"))
+        ctx.probe("store-level-binding-shadowed-by-initNs")
     faulty = bool(cfg.get("faults"))
 
     model = {}  # endpoint dataset model: gkey -> set of triple keys
@@ -500,6 +505,7 @@ def _execute(trace, ctx):
             from sim.sparqlref import r_term
 
             s_, p_, o_ = (r_term(x) for x in t)
+            upd_kwargs = {}
             if what == "insert-data":
                 text = f"INSERT DATA {{ {s_} {p_} {o_} . }}"
 
@@ -520,6 +526,17 @@ def _execute(trace, ctx):
                         if x[1] == skey(t[1]) and x[0][0] != "l":
                             model[gk].add((x[0], ("u", EX + "copied"), x[2]))
 
+            elif what == "insert-initbinding":
+                # the object comes in through initBindings (the store writes it into the request as a VALUES block)
+                from rdflib import Variable
+
+                text = f"INSERT {{ {s_} {p_} ?val . }} WHERE {{ }}"
+                upd_kwargs = {"initBindings": {Variable("val"): T(t[2])}}
+                ctx.probe("update-with-initBindings")
+
+                def th(t=t, gk=gk):
+                    model.setdefault(gk, set()).add(tuple(skey(x) for x in t))
+
             else:
                 text = f"DELETE {{ {s_} {p_} ?o . }} INSERT {{ {s_} {p_} {o_} . }} WHERE {{ OPTIONAL {{ {s_} {p_} ?o . }} }}"
 
@@ -529,7 +546,7 @@ def _execute(trace, ctx):
 
             if gk != DEFK:
                 ctx.probe("contextual-update")
-            write(op, th, lambda: handle(op["g"]).update(text))
+            write(op, th, lambda: handle(op["g"]).update(text, **upd_kwargs))
             writes_since[0] += 1
         elif k == "add-bnode":
             t = op["t"]
